@@ -2029,3 +2029,6 @@ def _stop_drain_guard_true(src):
 M2("c06-failure-drain-wakes-a-missing-event", "C06", "R1", [{"file": "state.py", "fn": _failure_drain_guard_true}],
    desc="mutscan 4: a fire-and-forget update in the overflow queue has no completion event; None.set() ends the failure handler half-way through")
 M2("c05-stop-drain-wakes-a-missing-event", "C05", "R6", [{"file": "state.py", "fn": _stop_drain_guard_true}])
+M("c13-every-poll-one-second-later", "C13", "R3.decision-implies-effect", "operation/wait_for_condition.py",
+  "            if delay_seconds is not None and delay_seconds < 1:", "            if delay_seconds is not None:",
+  desc="mutscan 4: the clamp applies to every decided delay")
